@@ -141,6 +141,9 @@ protected:
             auto level_begin = segments.begin() + levels_offsets[l];
             auto pos = std::min<size_t>((*it)(key), std::next(it)->intercept);
             auto lo = level_begin + PGM_SUB_EPS(pos, EpsilonRecursive + 1);
+#ifdef PGM_INDEX_VERIF
+            const auto verif_first = lo;
+#endif
 
             static constexpr size_t linear_search_threshold = 8 * 64 / sizeof(Segment);
             if constexpr (EpsilonRecursive <= linear_search_threshold) {
@@ -152,6 +155,10 @@ protected:
                 auto hi = level_begin + PGM_ADD_EPS(pos, EpsilonRecursive, level_size);
                 it = std::prev(std::upper_bound(lo, hi, key));
             }
+#ifdef PGM_INDEX_VERIF
+            ::pgm::verif::route_event(l, pos, size_t(verif_first - level_begin), size_t(it - level_begin),
+                                      levels_offsets[l + 1] - levels_offsets[l]);
+#endif
         }
         return it;
     }
